@@ -149,7 +149,7 @@ var MutationKinds = []string{
 	"binder-to-scope", "case-payload-to-scope", "case-payload-to-scope", "binder-to-alias", "alias-to-live", "cut-reuse-self-as-name", "drop-statement", "dup-statement", "rename-binder", "rename-use", "wait-to-drop", "insert-drop", "insert-split",
 	"extra-provider", "swap-send-args", "wrong-label", "drop-branch", "dup-branch", "extra-branch", "arity-minus", "arity-plus",
 	"wrong-callee", "self-misplaced", "ann-inequivalent", "ann-mode", "param-mode", "ret-mode", "prc-mode", "ann-equivalent",
-	"swap-statements", "cut-body-continuation", "remove-ann", "polarity", "self-arg", "shift-words",
+	"swap-statements", "cut-body-continuation", "remove-ann", "polarity", "self-arg", "shift-words", "typedef-change",
 }
 
 // Mutate applies one single-site edit to a clone of p. ok=false when the chosen operator has
@@ -582,6 +582,31 @@ func (d D) Mutate(p *ast.Program, kind string) (*ast.Program, string, bool) {
 			r.T.Args = append(r.T.Args, ast.SelfNm)
 		}
 		return q, "self added to the arguments of " + r.T.Fn + " in " + declName(r.Decl), true
+	}
+	if kind == "typedef-change" { // the body of a type definition becomes a different type (same name)
+		tds := q.Types()
+		if len(tds) == 0 {
+			return nil, "", false
+		}
+		td := tds[d.Pick(len(tds), "typedef")]
+		var nodes []*ast.Ty
+		td.Ty.Walk(func(n *ast.Ty) { nodes = append(nodes, n) })
+		n := nodes[d.Pick(len(nodes), "node")]
+		switch {
+		case n.K == ast.KTensor:
+			n.K = ast.KLolli
+		case n.K == ast.KLolli:
+			n.K = ast.KTensor
+		case n.K == ast.KPlus:
+			n.K = ast.KWith
+		case n.K == ast.KWith:
+			n.K = ast.KPlus
+		case n.K == ast.KOne:
+			n.K, n.L, n.R = ast.KTensor, ast.One(n.M), ast.One(n.M)
+		default:
+			return nil, "", false
+		}
+		return q, "definition of type " + td.Name + " changed", true
 	}
 	// mutations of types written in the program
 	type tyRef struct {
